@@ -10,6 +10,7 @@ exit 2  undecided (lost anchor, unsupported construct, resource limit, tool fail
 import argparse
 import concurrent.futures as cf
 import json
+import re
 import os
 import subprocess
 import sys
@@ -169,8 +170,11 @@ def main():
     P = props.PROPS[pid]
     t0 = time.time()
     kfs = load_kf()
-    os.makedirs(os.path.join(VERIF, "evidence"), exist_ok=True)
-    os.makedirs(os.path.join(VERIF, "replays"), exist_ok=True)
+    # developer switches used only by vf/seed_regress.py so that parallel runs on scratch trees do not clobber the real output
+    EVID = os.environ.get("VERIF_EVIDENCE_DIR") or os.path.join(VERIF, "evidence")
+    REPL = os.environ.get("VERIF_REPLAY_DIR") or os.path.join(VERIF, "replays")
+    os.makedirs(EVID, exist_ok=True)
+    os.makedirs(REPL, exist_ok=True)
 
     v_units = P.get("v_units", [])
     results, confirm = run_v_units(v_units, tier, seed, pid, kfs)
@@ -283,6 +287,31 @@ def main():
         for t in k_result["trusted"]:
             trusted.add(t)
 
+    # bounded stand-in (labelled bounded, never counted as proved): the native lattice family of this property executed
+    # against the real spaces.  It reaches the functions no contract here reaches (SO(3): acos / sin; multi-step
+    # tolerance relations) and gives every violation it finds a concrete failing input.
+    s_bounded = []
+    s_violations = []
+    if P.get("bounded_scenarios"):
+        import replay
+        seeds = [seed] if tier == "quick" else [seed + i for i in range(4)]
+        for sd in seeds:
+            hits, note = replay.run_scenarios(pid, sd)
+            if "does not build" in note:
+                undecided.append("S: " + note[:300])
+                break
+            fresh = []
+            for h in hits:
+                kf = next((k for k in kfs if k.get("property") == pid and k.get("unit") == "S" and re.search(k["scenario_re"], h.get("what", ""))), None)
+                if kf:
+                    if kf["id"] not in [k[0]["id"] for k in known]:
+                        known.append((kf, "S", dict(obligation="native lattice family: " + h.get("what", "")[:300])))
+                else:
+                    fresh.append(h)
+            s_bounded.append(dict(harness="native lattice family %s (replay/src/spaces.rs) seed %d" % (pid, sd), bound=P["bounded_scenarios"], status="pass" if not fresh else "fail", reports=len(hits)))
+            if fresh:
+                s_violations.append((sd, fresh))
+
     wall = time.time() - t0
     exit_code = 0
     lines = []
@@ -290,7 +319,7 @@ def main():
         lines.append("KNOWN-FINDING: property=%s %s [%s]" % (pid, kf["what"], kf["id"]))
     replay_paths = []
     for i, (uname, fl) in enumerate(violations):
-        rp = os.path.join(VERIF, "replays", "%s-%s-%d.json" % (pid, tier, i))
+        rp = os.path.join(REPL, "%s-%s-%d.json" % (pid, tier, i))
         rec = dict(property=pid, unit=uname, obligation=describe(fl) if hasattr(fl, "message") else fl.get("obligation"),
                    detail=fl.to_json() if hasattr(fl, "to_json") else fl)
         found = False
@@ -303,6 +332,13 @@ def main():
         replay_paths.append(rp)
         lines.append("VIOLATION property=%s replay=%s%s" % (pid, rp, "" if found else " no-failing-input-found"))
         exit_code = 1
+    for sd, fresh in s_violations:
+        rp = os.path.join(REPL, "%s-%s-lattice-%d.json" % (pid, tier, sd))
+        json.dump(dict(property=pid, unit="S", obligation="bounded native lattice family of %s: the real code violates the property on a concrete input" % pid, failing_inputs=fresh[:8], seed=sd,
+                       how_to_replay="python3 vf/check.py %s --replay <this file>" % pid), open(rp, "w"), indent=1)
+        lines.append("VIOLATION property=%s replay=%s" % (pid, rp))
+        violations.append(("S", dict(obligation="native lattice family", failing_inputs=fresh[:3])))
+        exit_code = 1
     if undecided and exit_code == 0:
         # undecided obligations (lost anchor, unsupported construct, resource limit): look for a concrete failing input.
         # Only a reproduced violation of the property on the real code turns "undecided" into an alarm.
@@ -312,7 +348,7 @@ def main():
         except Exception as e:
             hits, note = [], repr(e)
         if hits:
-            rp = os.path.join(VERIF, "replays", "%s-%s-undecided.json" % (pid, tier))
+            rp = os.path.join(REPL, "%s-%s-undecided.json" % (pid, tier))
             json.dump(dict(property=pid, obligation="undecided: " + " || ".join(undecided)[:1500], failing_inputs=hits[:5], seed=seed, replay_note=note), open(rp, "w"), indent=1)
             lines.append("VIOLATION property=%s replay=%s" % (pid, rp))
             exit_code = 1
@@ -333,7 +369,7 @@ def main():
             units=unit_summaries,
             solver_time_s=round(smt_s + (k_result["solver_s"] if k_result else 0.0), 2),
             rewrite_rule_hits={k: v for k, v in rule_hits.items() if v},
-            bounded_checks=(k_result["bounded"] if k_result else []),
+            bounded_checks=(k_result["bounded"] if k_result else []) + s_bounded,
             kani=(k_result["harness_table"] if k_result else []),
             kani_optional_undecided=(k_result.get("optional_undecided", []) if k_result else []),
             known_findings_matched=[k[0]["id"] for k in known],
@@ -345,7 +381,7 @@ def main():
         wall_s=round(wall, 2),
         violations=len([v for v in violations]),
     )
-    json.dump(ev, open(os.path.join(VERIF, "evidence", pid + ".json"), "w"), indent=1)
+    json.dump(ev, open(os.path.join(EVID, pid + ".json"), "w"), indent=1)
     for ln in lines:
         print(ln)
     for u in undecided:
